@@ -62,6 +62,7 @@ OwnerOf(id) == {t \in Threads : pc[t] # "idle" /\ cur[t].id = id}
 
 Step(r) ==
   CASE r.ev = "reset" ->
+         /\ r.block = BlockSize             \* auditlog.GroundingBlockSize is the 1000 of the property
          /\ mode' = "closed" /\ w' = W0 /\ pc' = [t \in Threads |-> "idle"] /\ cur' = [t \in Threads |-> NoCall]
          /\ done' = 0 /\ unrecorded' = {} /\ nw' = 0 /\ ng' = 0
     [] r.ev = "open" ->
